@@ -31,6 +31,26 @@ fn one(out: &mut Out, n: usize, bonds: &[(usize, usize, f64)], count: &mut usize
     }
     *count += 1;
     if !got.angles.is_empty() { *nontrivial += 1; }
+    // the same graph through the bond-order matrix interface, on a molecule that already carries another graph's lists
+    // (a chain, a star or the previous case's graph): the lists must be this graph's, nothing left over
+    if *count % 3 == 0 && n >= 2 {
+        let mut w = Wrapper::from_atomic_symbols(&palette_symbols(n, *count));
+        let mut prev = vec![0.0; n * n];
+        match *count % 9 { 0 => { for i in 0..(n - 1) { prev[i * n + i + 1] = 1.0; } }
+                           3 => { for j in 1..n { prev[j] = 2.0; } }
+                           _ => { for i in 0..n { for j in (i + 1)..n { if (i + j + *count) % 2 == 0 { prev[i * n + j] = 1.0; } } } } }
+        if crate::s_matrix::panic_kind(|| w.set_bond_orders(prev.clone())).is_some() { return; }
+        let mut mat = vec![0.0; n * n];
+        let mut uniq: Vec<(usize, usize, f64)> = vec![];
+        for (i, j, o) in bonds { let (a, b) = if i < j { (*i, *j) } else { (*j, *i) }; if mat[a * n + b] == 0.0 { mat[a * n + b] = *o; uniq.push((a, b, *o)); } }
+        if crate::s_matrix::panic_kind(|| w.set_bond_orders(mat.clone())).is_some() { return; }
+        let got2 = canon_conn(&connectivity(w.molecule()));
+        let want2 = canon_conn(&reference_conn(n, &uniq));
+        if got2 != want2 {
+            out.oracle_fail(&format!("set through the bond-order matrix on a molecule that already had bonds, the connectivity is not the bond graph's: got {} want {}", got2, want2),
+                            &format!("graph {} {} (set after another graph through set_bond_orders)", n, bonds_text(&uniq)));
+        }
+    }
 }
 
 pub fn run(out: &mut Out, seed: u64, tier: &str) {
